@@ -183,6 +183,36 @@ func rpHandler(ops []Sx) rux.HandlerFunc {
 	}
 }
 
+// rpController registers whatever its function registers (rux.ControllerFace)
+type rpController func()
+
+func (f rpController) AddRoutes(_ *rux.Router) { f() }
+
+// the per-method shortcuts of Router
+func rpShortcut(r *rux.Router, m string) func(string, rux.HandlerFunc, ...rux.HandlerFunc) *rux.Route {
+	switch m {
+	case "GET":
+		return r.GET
+	case "HEAD":
+		return r.HEAD
+	case "POST":
+		return r.POST
+	case "PUT":
+		return r.PUT
+	case "PATCH":
+		return r.PATCH
+	case "TRACE":
+		return r.TRACE
+	case "OPTIONS":
+		return r.OPTIONS
+	case "DELETE":
+		return r.DELETE
+	case "CONNECT":
+		return r.CONNECT
+	}
+	return nil
+}
+
 type rpEnv struct {
 	r      *rux.Router
 	hs     map[int]rux.HandlerFunc
@@ -208,12 +238,25 @@ func (e *rpEnv) stmts(ss []Sx) {
 			e.r.Use(e.handlers(s.List[1:])...)
 		case "group":
 			body := s.List[3].Lst()
-			e.r.Group(s.List[1].Str(), func() { e.stmts(body) }, e.handlers(s.List[2].Lst())...)
+			if len(s.List) > 4 && s.List[4].Atom == "ctl" { // the same scope opened through Router.Controller
+				e.r.Controller(s.List[1].Str(), rpController(func() { e.stmts(body) }), e.handlers(s.List[2].Lst())...)
+			} else {
+				e.r.Group(s.List[1].Str(), func() { e.stmts(body) }, e.handlers(s.List[2].Lst())...)
+			}
 		case "route":
 			meths := s.List[1].Strs()
 			main := e.handlers(s.List[3:4])[0]
 			var rt *rux.Route
-			if len(s.List) > 7 && s.List[7].Atom == "pre" {
+			if len(s.List) > 7 && s.List[7].Atom == "short" && len(meths) == 1 && s.List[6].Str() == "" && rpShortcut(e.r, meths[0]) != nil {
+				// r.GET(path, main, var...) and friends
+				rt = rpShortcut(e.r, meths[0])(s.List[2].Str(), main, e.handlers(s.List[4].Lst())...)
+				if later := s.List[5].Lst(); len(later) > 0 {
+					rt.Use(e.handlers(later)...)
+				}
+				e.routes = append(e.routes, rt)
+				continue
+			}
+			if len(s.List) > 7 && (s.List[7].Atom == "pre" || s.List[7].Atom == "attach") {
 				// the route brings its own middleware when it is added
 				if name := s.List[6].Str(); name != "" {
 					rt = rux.NewNamedRoute(name, s.List[2].Str(), main, meths...)
@@ -221,7 +264,11 @@ func (e *rpEnv) stmts(ss []Sx) {
 					rt = rux.NewRoute(s.List[2].Str(), main, meths...)
 				}
 				rt.Use(e.handlers(s.List[4].Lst())...)
-				e.r.AddRoute(rt)
+				if s.List[7].Atom == "attach" {
+					rt.AttachTo(e.r)
+				} else {
+					e.r.AddRoute(rt)
+				}
 				if later := s.List[5].Lst(); len(later) > 0 {
 					rt.Use(e.handlers(later)...)
 				}
